@@ -1480,6 +1480,32 @@ def emit_fn(d, unit, report, canaries):
                 raise ExtractError('lost anchor: %s callargs %s: no call found' % (fname, fn_name))
             counts['Rcall'] = counts.get('Rcall', 0) + n_calls
     for name, argstr, text in d.sections:
+        if name == 'autocallargs':
+            # Rcall, automatic: every call `self.NAME(` of a function that is under contract in this world gets the arguments for the
+            # parameters the rules injected into NAME's signature (R1 state first; R6 outbox, R6q sig, //@sigadd parameters last)
+            n_calls = 0
+            for fn_name, fd in FNDIRS.items():
+                frules = (fd.opt('rules', '') or '').split(',')
+                pre = ['state'] if 'R1' in frules else []
+                post = (['Tracked(outbox)'] if 'R6' in frules else []) + (['Tracked(sig)'] if 'R6q' in frules else [])
+                post += [a.split(':')[0].strip() for (n2, a, _) in fd.sections if n2 == 'sigadd']
+                if not pre and not post:
+                    continue
+                pos = 0
+                pat = re.compile(r'\bself\s*\.\s*%s\s*\(' % re.escape(fn_name))
+                while True:
+                    m = pat.search(body, pos)
+                    if not m:
+                        break
+                    open_idx = m.end() - 1
+                    close_idx = _match_brace(body, open_idx)
+                    inner = body[open_idx + 1:close_idx]
+                    new_inner = ', '.join(pre + ([inner.strip().rstrip(',')] if inner.strip() else []) + post)
+                    body = body[:open_idx + 1] + new_inner + body[close_idx:]
+                    pos = open_idx + 1 + len(new_inner)
+                    n_calls += 1
+            counts['Rcall'] = counts.get('Rcall', 0) + n_calls
+    for name, argstr, text in d.sections:
         if name == 'ascribe':
             # R12: add a type annotation to a `let` (needed when ghost code mentions the variable before Rust infers its type)
             var, ty = argstr.split(None, 1)
@@ -1622,6 +1648,7 @@ def count_builtin(body):
 
 
 BLOCKS = {}
+FNDIRS = {}   # function name -> //@fn directive (for //@autocallargs)
 PASSES = {}   # base block -> names of the additional proof passes over the same text
 
 
@@ -1633,6 +1660,11 @@ def prepass(world_files):
         for seg in parse_template(wf):
             if not isinstance(seg, str) and seg.kind == 'block':
                 BLOCKS[seg.args[2]] = seg
+    FNDIRS.clear()
+    for wf in world_files:
+        for seg in parse_template(wf):
+            if not isinstance(seg, str) and seg.kind == 'fn':
+                FNDIRS[seg.opt('as') or seg.args[1].split('::')[-1]] = seg
     PASSES.clear()
     for nm, seg in BLOCKS.items():
         if seg.opt('passof'):
